@@ -194,7 +194,7 @@ Fixpoint anG (s : stmt) (x0 : st) {struct s} : gres :=
       visit_if_elseG p c (pos s1) (fun a => orbG s1 (anG s1 a)) (pos s2) (fun a => orbG s2 (anG s2 a)) x
   | SWhile p c b => visit_whileG c (pos b) (anG b) x
   | SDoWhile p b c => visit_do_whileG p c (pos b) (anG b) x
-  | SFor p c b => visit_forG p c (pos b) (anG b) x
+  | SFor p i c u b => visit_forG p c (pos b) (anG b) (visit_oe u (visit_oe i x))
   | SForIn p b | SForOf p b => visit_for_inG (pos b) (anG b) x
   | SForHead p _ fp pb hb b => seqG (for_headG fp pb (anG_list hb)) (visit_for_inG (pos b) (anG b)) x
   | SSwitch p cs => visit_switchG p cs (anG_cases cs) x
